@@ -15,6 +15,9 @@ TRUSTED = ['collections.deque contract (DESIGN 5.4)', 'queue.Queue contract: put
 ASSUMPTIONS = [
     'each LockingDeque operation runs without interference (statement-level races with the consumer are out of reach)',
     'no zero-capacity deque is created',
+    'the wake-up token queue of a LockingDeque is the queue other threads fill (world.shared_put_owners): a put that may '
+    'wait, inside LockingDeque, must not rest on an earlier full()/qsize() reading (rely-style obligation, generated only '
+    'when such a put exists; the unmodified code has none)',
 ]
 EXPLANATION = ('Representation invariant of LockingDeque (|deque| <= M, 0 <= tokens <= M) and the property\'s sentences as '
                'postconditions of append/appendleft/pop/popleft/clear/len/qsize, for every content and token count; '
